@@ -2,6 +2,7 @@ CONSTANTS
   Threads = {1, 2, 3, 4}
   Keys = {1, 2, 3, 4, 5, 6}
   DirectKeys = {6}
+  MaxRepeats = 1000000
   DepsOpts = {}
   LoadsOpts = {}
   SharedOpts = {}
